@@ -492,8 +492,10 @@ func handlePop(params internal.HandlerFuncParams) ([]byte, error) {
 		if err != nil {
 			return nil, fmt.Errorf("count must be an integer")
 		}
-		// Set absolute value for count
-		count = internal.AbsInt(count)
+		// A negative count is not a number of elements
+		if count < 0 {
+			return nil, fmt.Errorf("count must be a positive integer")
+		}
 		// If count is greater than the length of the list, set count to the length of the list.
 		if count > len(list) {
 			count = len(list)
